@@ -18,6 +18,14 @@ extern uint8_t g_poison;
 // persistent receive buffer would hold: the earlier datagrams of this case (0xA5 where nothing was ever
 // received) with the new datagram copied over the front.  Reset at the start of every case.
 extern bool g_prev_mode;
+// fourth instance: when set, the armed datagram travels through the KERNEL: it is sent over a real loopback UDP
+// socket pair and received with the real recvfrom() into the caller's buffer with the caller's length and flags
+// (on a substitute descriptor), so the return value and truncation are the kernel's (this is what validates the
+// models' hypothesis `received length <= capacity` against UDPSocket::RecvFrom / common/network/Socket.cpp).
+// The buffer is pre-filled like the third instance's persistent buffer.
+extern bool g_kernel_mode;
+// one datagram through the kernel into (buf, len) with `flags`; returns what the real recvfrom returned
+ssize_t kernel_roundtrip(const std::vector<uint8_t> &dgram, void *buf, size_t len, int flags);
 // number of recvfrom calls that found a datagram / bytes of capacity offered by the last call
 extern unsigned g_rx_calls;
 extern size_t g_rx_cap;
@@ -49,10 +57,17 @@ struct Trace {
     if (a != c) twin_ok = false;
     add(a, b);
   }
+  void add4(const std::string &a, const std::string &b, const std::string &c, const std::string &d) {
+    if (a != d) twin_ok = false;
+    add3(a, b, c);
+  }
+  // the node's OUTPUT after the step just added (handler DMX data, priority, callbacks): a property-determined key
+  void out(const std::string &o) { s += ";o" + vh::str(step - 1) + "=" + o; }
   std::string result() const { return std::string("hz=none;twin=") + (twin_ok ? "1" : "0") + s; }
 };
-static const uint8_t POISON[3] = {0x00, 0xA5, 0xA5};
+static const uint8_t POISON[4] = {0x00, 0xA5, 0xA5, 0xA5};
 // RAII: deliveries inside the scope go to the persistent (previous-datagram) buffer
+struct KernelMode { KernelMode() { g_kernel_mode = true; } ~KernelMode() { g_kernel_mode = false; } };
 struct PrevMode { PrevMode() { g_prev_mode = true; } ~PrevMode() { g_prev_mode = false; } };
 }  // namespace c06
 #endif  // VERIF_C06_H_COMMON_H_
